@@ -646,3 +646,90 @@ def _oracle_vars_sim(src, ops):
                 logical[x] = v
         ref.store = logical
     return None
+
+
+# ---------------------------------------------------------------- C06: cutoffs gate propagation
+def oracle_cutoffs(src, ops, tail):
+    prev = None
+    rank_of_handle = {}
+    nh = 0
+    always, never = {}, set()        # node rank -> changed_at frozen at; never set
+    for op in ops:
+        line = src[op.idx]
+        word = line.split()[0]
+        if op.result.startswith("node "):
+            rank_of_handle[nh] = int(op.result.split()[1])
+            nh += 1
+        if op.result.startswith("panic"):
+            return None
+        if word == "cutoff" and op.nodes:
+            t = line.split()
+            r = rank_of_handle.get(int(t[1]))
+            always.pop(r, None)
+            never.discard(r)
+            n = op.nodes.get(r)
+            if n is not None:
+                if t[2] == "always" and n["val"] != "-":
+                    always[r] = n["chg"]
+                elif t[2] == "always":
+                    always[r] = None
+                elif t[2] == "never":
+                    never.add(r)
+        if word == "stabilise" and op.result.startswith("ok") and op.nodes and prev is not None and prev.nodes:
+            t = int(prev.dump["stab"])
+            ran = [ev_node(e) for e in op.events if ev_kind(e) == "inv"]
+            for d in ran:
+                before, after = prev.nodes.get(d), op.nodes.get(d)
+                if before is None or after is None or before["rec"] == -1 or not after["valid"]:
+                    continue
+                if before["kind"] == "BindMain":
+                    continue
+                kids = before["children"]
+                ok = False
+                for c in kids:
+                    ca = op.nodes.get(c)
+                    if ca is None or not ca["valid"] or ca["chg"] > before["rec"]:
+                        ok = True
+                if not ok:
+                    return (f"op {op.idx}: the function of node {d} was re-invoked although none of its inputs {kids} "
+                            f"produced an unsuppressed result since it last ran (round {before['rec']})")
+            for c, cn in op.nodes.items():
+                if cn is None or cn["chg"] != t or not cn["valid"]:
+                    continue
+                for d in cn["parents"]:
+                    dn = op.nodes.get(d)
+                    if dn is None or not dn["valid"] or not necessary(dn):
+                        continue
+                    if dn["kind"] in ("Expert",):
+                        continue
+                    if dn["rec"] != t:
+                        return (f"op {op.idx}: node {c} changed in this stabilise (round {t}) but its needed dependant {d} "
+                                f"was not recomputed (recomputed_at {dn['rec']})")
+            # function cutoffs see (old, new)
+            evs = op.events
+            for i, e in enumerate(evs):
+                if ev_kind(e) == "cut" and i > 0 and ev_kind(evs[i - 1]) == "inv":
+                    n = ev_node(evs[i - 1])
+                    res = evs[i - 1].rsplit("-> ", 1)[1]
+                    old, new = e.split()[1], e.split()[2]
+                    before = prev.nodes.get(n)
+                    if new != res:
+                        return f"op {op.idx}: cutoff of node {n} was given new value {new}, the function returned {res}"
+                    if before is not None and before["val"] != "-" and before["valid"] and old != before["val"]:
+                        return f"op {op.idx}: cutoff of node {n} was given old value {old}, the previous value was {before['val']}"
+            for r in list(always):
+                n = op.nodes.get(r)
+                if n is None or not n["valid"] or n["kind"] in ("MapWithOld", "MapRef"):
+                    continue       # map_with_old decides by its returned flag; map_ref compares projections
+                if always[r] is None:
+                    if n["val"] != "-":
+                        always[r] = n["chg"]
+                elif n["chg"] != always[r]:
+                    return f"op {op.idx}: node {r} has Cutoff::Always but its changed_at moved from {always[r]} to {n['chg']}"
+            for r in never:
+                n = op.nodes.get(r)
+                if n is not None and n["valid"] and n["rec"] == t and n["chg"] != t and n["kind"] not in ("MapRef", "MapWithOld"):
+                    return f"op {op.idx}: node {r} has Cutoff::Never, was recomputed in round {t} but changed_at is {n['chg']}"
+        if op.nodes:
+            prev = op
+    return None
